@@ -2,7 +2,9 @@ package main
 
 import (
 	"fmt"
+	"math"
 	"math/big"
+	"math/rand"
 	"sort"
 	"strings"
 
@@ -352,6 +354,101 @@ func runDc(c *hlib.Ctx) {
 	// small lattices, a round body with zero-thickness features at lattice positions, Repair on:
 	// many singular edges whose ends are clipped to the cube margin
 	batch(c, "dcz", 3*c.N, func() { dcCase(c, true) })
+	// round bodies in general position on a decimal lattice, Repair on
+	batch(c, "dcb", c.N/4, func() { dcBlobCase(c) })
+	batch(c, "dcn", c.N/4, func() { dcBlobNeighbourCase(c) })
+}
+
+// dcBlobCase: round bodies in GENERAL position on a decimal lattice (delta 0.1 ...): unions of three balls and
+// two boxes, parts nearly touching, gaps and walls of about one cell - two sheets of surface through one cell give
+// singular edges AND singular vertices, with QEF vertices clipped to arbitrary (not lattice-aligned) places of
+// their cells.  Clip + Repair + NoJitter through the struct.  The driver needs only the labels.
+func dcBlobCase(c *hlib.Ctx) {
+	t, mn, mx, delta := blobSolid(c.Rng)
+	c.Stat("c02.dc.blobs_general_position", 1)
+	dcEval(c, t, mn, mx, delta, true, true, []int{0, 1, 3}[c.Rng.Intn(3)], 0, 0, true)
+}
+
+// blobCorpus: seeds of blobSolid on which the code before /repo's repair of the two Repair passes folded the
+// surface over a lattice edge (edge crossed three times; 5 of 24 000 random blob solids).  dcBlobNeighbourCase
+// re-runs them and solids next to them (every parameter moved by up to p, p log-uniform in 1e-7 .. 5e-4, the
+// bounds and so the lattice unchanged).
+var blobCorpus = []int64{2078, 4356, 6821, 7173, 18332}
+
+func dcBlobNeighbourCase(c *hlib.Ctx) {
+	seed := blobCorpus[c.Rng.Intn(len(blobCorpus))]
+	t, mn, mx, delta := blobSolid(rand.New(rand.NewSource(seed)))
+	p := 5e-4 * math.Pow(10, -3.7*c.Rng.Float64())
+	if c.Rng.Intn(6) == 0 {
+		p = 0
+	}
+	var move func(t *csg) *csg
+	move = func(t *csg) *csg {
+		r := *t
+		if t.kind == "or" {
+			r.a, r.b = move(t.a), move(t.b)
+			return &r
+		}
+		r.p = append([]float64(nil), t.p...)
+		for i := range r.p {
+			r.p[i] += p * (2*c.Rng.Float64() - 1)
+		}
+		return &r
+	}
+	c.Stat("c02.dc.blobs_next_to_a_recorded_fold", 1)
+	dcEval(c, move(t), mn, mx, delta, true, true, []int{0, 1, 3}[c.Rng.Intn(3)], 0, 0, true)
+}
+
+func blobSolid(r *rand.Rand) (t *csg, mn, mx model3d.Coord3D, delta float64) {
+	lo := [3]float64{math.Inf(1), math.Inf(1), math.Inf(1)}
+	hi := [3]float64{math.Inf(-1), math.Inf(-1), math.Inf(-1)}
+	grow := func(k int, a, b float64) {
+		lo[k], hi[k] = math.Min(lo[k], a), math.Max(hi[k], b)
+	}
+	add := func(p *csg) {
+		if t == nil {
+			t = p
+		} else {
+			t = &csg{kind: "or", a: t, b: p}
+		}
+	}
+	family := r.Intn(3)
+	var prev []float64
+	for i := 0; i < 3; i++ {
+		rad := 0.1 + 0.25*r.Float64()
+		ctr := [3]float64{r.Float64(), r.Float64(), r.Float64()}
+		if family != 0 && prev != nil {
+			// next to the previous ball: a gap (or overlap) of -0.5 .. 1.5 cells along a random direction
+			d := [3]float64{r.NormFloat64(), r.NormFloat64(), r.NormFloat64()}
+			n := math.Sqrt(d[0]*d[0] + d[1]*d[1] + d[2]*d[2])
+			gap := (-0.05 + 0.2*r.Float64())
+			for k := 0; k < 3; k++ {
+				ctr[k] = prev[k] + d[k]/n*(prev[3]+rad+gap)
+			}
+		}
+		prev = []float64{ctr[0], ctr[1], ctr[2], rad}
+		add(&csg{kind: "ball", p: prev})
+		for k := 0; k < 3; k++ {
+			grow(k, ctr[k]-rad, ctr[k]+rad)
+		}
+	}
+	for i := 0; i < 2; i++ {
+		var p [6]float64
+		for k := 0; k < 3; k++ {
+			p[k] = r.Float64()
+			if family == 2 { // a box face about a cell away from a ball
+				p[k] = prev[k] + (r.Float64()-0.5)*0.6
+			}
+			p[k+3] = p[k] + 0.1 + 0.4*r.Float64()
+			grow(k, p[k], p[k+3])
+		}
+		add(&csg{kind: "box", p: p[:]})
+	}
+	delta = []float64{0.1, 0.1, 0.1, 0.07, 0.13}[r.Intn(5)]
+	pad := 1e-3
+	mn = model3d.XYZ(lo[0]-pad, lo[1]-pad, lo[2]-pad)
+	mx = model3d.XYZ(hi[0]+pad, hi[1]+pad, hi[2]+pad)
+	return
 }
 
 func dcCase(c *hlib.Ctx, focus bool) {
@@ -434,6 +531,14 @@ func dcCase(c *hlib.Ctx, focus bool) {
 			}
 			c.Stat("c02.dc.zero_thickness_feature", 1)
 		}
+		dcEval(c, t, mn, mx, delta, noJitter, repair, gos, buf, margin, false)
+	}
+}
+
+// dcEval runs the real dual contouring on the solid with the given options (plus a random TriangleMode,
+// Mesh / MeshInterior and entry point: the struct or, unless structOnly, one of the two wrappers) and emits the case.
+func dcEval(c *hlib.Ctx, t *csg, mn, mx model3d.Coord3D, delta float64, noJitter, repair bool, gos, buf int, margin float64, structOnly bool) {
+	{
 		s := &solid3{t, mn, mx}
 		mode := model3d.DualContouringTriangleMode(c.Rng.Intn(3))
 		wantInterior := c.Rng.Intn(2) == 0
@@ -441,7 +546,7 @@ func dcCase(c *hlib.Ctx, focus bool) {
 		// DualContour(s, delta, repair, clip) / DualContourInterior(s, delta, repair, clip) with clip = true
 		// (they leave every other option at its zero value: jitter on, default margin, default buffer)
 		entry := "struct"
-		if c.Rng.Intn(5) < 2 {
+		if c.Rng.Intn(5) < 2 && !structOnly {
 			entry = []string{"DualContour", "DualContourInterior"}[c.Rng.Intn(2)]
 			noJitter, gos, buf, margin, mode = false, 0, 0, 0, 0
 			wantInterior = entry == "DualContourInterior"
